@@ -119,6 +119,11 @@ func (lexer *CommonLex) CreateProgram(expr string) (prog []Inst, err error) {
 	errors := fmt.Sprintf("Failed to compile '%s'\n", expr)
 	currentPosInLine :=
 		len(string(expr)) - len(string(lexer.progBldr.lineAtErr))
+	if currentPosInLine < 0 {
+		// The look-ahead was not part of the input (an invalid UTF-8 byte is
+		// held as the ERR marker, which prints as a 3-byte replacement rune).
+		currentPosInLine = 0
+	}
 	parsedLine := string(expr)[:currentPosInLine]
 	unParsedLine := string(expr)[currentPosInLine:]
 
@@ -156,7 +161,7 @@ func (x *CommonLex) Error(s string) {
 		return
 	}
 	x.progBldr.parseErr = fmt.Errorf("%s", s)
-	if x.peek != xutils.EOF {
+	if x.peek != xutils.EOF && x.peek != xutils.ERR {
 		x.progBldr.lineAtErr = string(x.peek) + string(x.line)
 	} else {
 		x.progBldr.lineAtErr = string(x.line)
